@@ -213,6 +213,27 @@ def substringX (s : String) (a : Float) (b : Option Float) : String :=
     | some b => pf ≥ ra && pf < ra + xround b
   String.ofList ((cs.zipIdx.filter fun (_, i) => keep (i + 1)).map (·.1))
 
+/-- the attribute the generated DTDs declare as of type ID (`<!ATTLIST e k ID #IMPLIED>` for every element name) -/
+def idAttrName : String := "k"
+
+/-- the element with the unique ID `tok` (§5.2.1), if any: the ID map of the document -/
+def elementById (d : Doc) (tok : String) : Option Nat :=
+  (d.ids.filter fun e => d.kindOf e == .elem &&
+    (d.ids.any fun a => d.parentOf a == some e && d.isAttr a && nameOf d a == idAttrName && (d[a]?.map (·.value)) == some tok)).head?
+
+/-- white-space separated tokens -/
+def idTokens (s : String) : List String :=
+  ((String.ofList (s.toList.map fun c => if isSpaceC c then ' ' else c)).splitOn " ").filter (· ≠ "")
+
+/-- `id(object)` (§4.1): for a node-set the union of `id(string-value)` over its nodes, otherwise `string(object)` split into
+tokens; the elements with those IDs, in document order, without duplicates -/
+def idFn (d : Doc) (v : XV) : List Nat :=
+  let toks : List String := match v with
+    | .nodes l => l.flatMap fun m => idTokens (d.stringValue m)
+    | v => idTokens (v.toStr d)
+  let hits := toks.filterMap (elementById d)
+  d.ids.filter fun e => hits.contains e
+
 /-- the nodes whose string-value has not occurred earlier in the (document-ordered) list -/
 def distinctBy (d : Doc) (l : List Nat) : List Nat :=
   (l.foldl (fun (acc : List Nat × List String) m =>
@@ -283,6 +304,7 @@ def callFn (d : Doc) (c : Ctx) (position last : Float) (f : String) (args : List
     match b.head? with
     | none => .ok (.nodes a)
     | some f => .ok (.nodes (if a.contains f then a.filter (· > f) else []))
+  | "id", [v] => .ok (.nodes (idFn d v))
   | "floor", [v] => .ok (.num (v.toNum d).floor)
   | "ceiling", [v] => .ok (.num (v.toNum d).ceil)
   | "round", [v] => .ok (.num (xround (v.toNum d)))
